@@ -54,6 +54,8 @@ def dispatch_arms(F, fn):
 
 
 def run(F, res, tier):
+    from rules import c14 as _c14u
+    _c14u.text_positions_are_counted_in_bytes(F, res, rule="G12", crates=('syntax',))   # engine U: a well-formed non-ASCII string literal is one STRING token
     pure = teval.Pure(F)
     kinds = F.variants(SK)
     dm = {n: d for d, n in F.discr_map(SK).items()}
